@@ -167,8 +167,11 @@ theorem untilFixed_diverges (step : List Int → List Int) (a b : List Int) (hab
 example : ∀ fuel, untilFixed (fun l => Vote.voteUpdate dicycle3 l [0, 1, 2]) fuel [1, 2, 1] = none :=
   fun fuel => (untilFixed_diverges _ [1, 2, 1] [2, 1, 2] (by decide) (by decide +kernel) (by decide +kernel) fuel).1
 
-/-- **optimize_core_terminates** (over ℚ).  The `while not stop` loop of the Louvain kernel, in the model
-    `SkNet.Modularity.optimizeCore` instantiated at the rationals, terminates for every tolerance `tol ≥ 0`.
+/-- **optimize_core_terminates** (over ℚ, the loop *without* its pass cap).  The `while not stop` loop of the Louvain
+    kernel as it was before the cap, `SkNet.Modularity.optimizeCore` / `coreLoop` (the reference loop of C06; the
+    model of the compiled code is `optimizeCoreCapped`, total by construction) instantiated at the rationals,
+    terminates for every tolerance `tol ≥ 0`: in exact arithmetic the cap is never what the loop needs in order to end
+    (`Modularity.coreCapped_of_coreLoop` relates the two when the loop ends within `n + 1` passes).
     This is a statement about exact arithmetic **only**: the compiled kernel accumulates in `float`, where an exact
     tie can come out as a tiny positive gain, and with `tol_optimization = 0` it did cycle for ever (defect F22,
     13-node weighted path); the float32 kernel terminates because of its pass cap (`n + 1` passes, /repo 244a467f),
@@ -266,35 +269,9 @@ example : WL.colorWL WL.exactOps [[1], [0, 2], [1]] none = [0, 1, 0] := by decid
 
 /-! ## 5. More loops: the outer loop of Louvain, the work-list of push -/
 
-/-- **louvain_outer_terminates.**  The `while not stop` loop of `Louvain.fit` (optimise, aggregate, repeat; model
-    `SkNet.Modularity.louvainLoop`, exact arithmetic) terminates for tolerances `tol_optimization ≥ 0`,
-    `tol_aggregation ≥ 0` and any `n_aggregations` (the default `-1` = unbounded included): a round that does not
-    stop has `increase > tol_aggregation ≥ 0`, so some node left its singleton, its label is carried by no node any
-    more (labels are only copied from neighbours) and the aggregated graph has strictly fewer nodes — the `n + 1`
-    rounds of fuel of the model are never exhausted. -/
-theorem louvain_outer_terminates (res tolOpt tolAgg : Rat) (htolOpt : 0 ≤ tolOpt) (htolAgg : 0 ≤ tolAgg) (nAgg : Int)
-    (coreFuel fuel count : Nat) (lv : Modularity.Level) (memb : List Nat) (incs : List Rat)
-    (hlv : Modularity.LevelOK lv) (hcf : lv.n ^ lv.n + 1 ≤ coreFuel) (hf : lv.n + 1 ≤ fuel) :
-    Modularity.louvainLoop res tolOpt tolAgg nAgg coreFuel fuel count lv memb incs ≠ none :=
-  Terminate.louvainLoop_terminates res tolOpt tolAgg htolOpt htolAgg nAgg coreFuel fuel count lv memb incs hlv hcf hf
+/-! ### the outer loops, on the chain that mirrors the code as compiled now (pass caps of F21 / F22 in the kernels) -/
 
-/-- **louvain_fit_terminates.**  `Louvain.fit` (model `louvainFit`: pre-processing, then the loop above) never runs
-    out of fuel once the input is accepted. -/
-theorem louvain_fit_terminates (kind : Modularity.Kind) (res tolOpt tolAgg : Rat) (htolOpt : 0 ≤ tolOpt)
-    (htolAgg : 0 ≤ tolAgg) (nAgg : Int) (nRow nCol nnz : Nat) (B : Nat → Nat → Rat) (fb : Bool) (coreFuel : Nat)
-    (lv : Modularity.Level) (hpre : Modularity.preProcess kind nRow nCol nnz B fb = .ok lv)
-    (hcf : lv.n ^ lv.n + 1 ≤ coreFuel) :
-    Modularity.louvainFit kind res tolOpt tolAgg nAgg nRow nCol nnz B fb coreFuel ≠ .ok none :=
-  Terminate.louvainFit_terminates kind res tolOpt tolAgg htolOpt htolAgg nAgg nRow nCol nnz B fb coreFuel lv hpre hcf
-
-/-- non-vacuity: the pair level satisfies the hypotheses with both tolerances 0 and unbounded `n_aggregations`;
-    the loop stops in its first round (one cluster is left) -/
-example : (Modularity.louvainLoop 1 0 0 (-1) 5 3 0 pairLevel (Modularity.arange 2) []).map (·.labels) = some [0, 0] := by
-  decide +kernel
-
-/-! ### the same loops as compiled now (pass caps of F21 / F22 in the kernels) -/
-
-/-- **louvain_fit_compiled_terminates.**  On the chain that mirrors the code as it is compiled now
+/-- **louvain_fit_terminates.**  On the chain that mirrors the code as it is compiled now
     (`SkNet.Modularity.louvainFitCapped`: `optimize_core` returns after at most `n + 1` passes, /repo 244a467f), over ℚ:
     once the input is accepted, `Louvain.fit` returns for **every** `tol_optimization` — the kernel is total by its cap,
     no budget appears — and every `tol_aggregation ≥ 0`: the increase a round reports is still exactly the change of `Q`,
@@ -302,13 +279,13 @@ example : (Modularity.louvainLoop 1 0 0 (-1) 5 3 0 pairLevel (Modularity.arange 
     (`optimize_core_terminates` above is about the loop *without* the cap: it says the cap is not what ends the loop
     in exact arithmetic within `K^n + 1` passes; `Modularity.coreCapped_of_coreLoop` relates the two when the
     uncapped loop ends within `n + 1` passes.) -/
-theorem louvain_fit_compiled_terminates (kind : Modularity.Kind) (res tolOpt tolAgg : Rat) (htolAgg : 0 ≤ tolAgg)
+theorem louvain_fit_terminates (kind : Modularity.Kind) (res tolOpt tolAgg : Rat) (htolAgg : 0 ≤ tolAgg)
     (nAgg : Int) (nRow nCol nnz : Nat) (B : Nat → Nat → Rat) (fb : Bool) :
     Modularity.louvainFitCapped kind res tolOpt tolAgg nAgg nRow nCol nnz B fb ≠ .ok none :=
   Terminate.louvainFitCapped_terminates kind res tolOpt tolAgg htolAgg nAgg nRow nCol nnz B fb
 
 /-- the outer loop alone, on any well-formed level -/
-theorem louvain_outer_compiled_terminates (res tolOpt tolAgg : Rat) (htolAgg : 0 ≤ tolAgg) (nAgg : Int)
+theorem louvain_outer_terminates (res tolOpt tolAgg : Rat) (htolAgg : 0 ≤ tolAgg) (nAgg : Int)
     (fuel count : Nat) (lv : Modularity.Level) (memb : List Nat) (incs : List Rat) (hlv : Modularity.LevelOK lv)
     (hf : lv.n + 1 ≤ fuel) :
     Modularity.louvainLoopCapped res tolOpt tolAgg nAgg fuel count lv memb incs ≠ none :=
@@ -317,6 +294,28 @@ theorem louvain_outer_compiled_terminates (res tolOpt tolAgg : Rat) (htolAgg : 0
 /-- non-vacuity: the pair level with both tolerances 0 -/
 example : (Modularity.louvainLoopCapped 1 0 0 (-1) 3 0 pairLevel (Modularity.arange 2) []).map (·.labels)
     = some [0, 0] := by decide +kernel
+
+/-- **leiden_fit_terminates.**  `Leiden.fit` (model `SkNet.Modularity.leidenFit`, which mirrors the progress
+    condition of /repo b2c73765: a round whose refinement merges no node ends the loop) terminates once the input is
+    accepted — for **every** tolerance and every sequence of `rand()` values, and without any assumption on the
+    increase the kernel reports (the float32 noise that kept the loop alive, defect F25, cannot any more): a round that
+    continues has strictly fewer nodes, both kernels return by their pass caps, `n + 1` rounds suffice. -/
+theorem leiden_fit_terminates (kind : Modularity.Kind) (res tolOpt tolAgg : Rat) (nAgg : Int) (nRow nCol nnz : Nat)
+    (B : Nat → Nat → Rat) (fb : Bool) (rands : List (List Nat)) (lv : Modularity.Level)
+    (hpre : Modularity.preProcess kind nRow nCol nnz B fb = .ok lv) (outerFuel : Nat) (hf : lv.n + 1 ≤ outerFuel) :
+    Modularity.leidenFit kind res tolOpt tolAgg nAgg nRow nCol nnz B fb outerFuel rands ≠ .ok none :=
+  Terminate.leidenFit_terminates kind res tolOpt tolAgg nAgg nRow nCol nnz B fb rands lv hpre outerFuel hf
+
+/-- the outer loop alone, on any well-formed level -/
+theorem leiden_outer_terminates (res tolOpt tolAgg : Rat) (nAgg : Int) (fuel count : Nat) (lv : Modularity.Level)
+    (labels memb : List Nat) (incs : List Rat) (rands : List (List Nat)) (hlv : Modularity.LevelOK lv)
+    (hf : lv.n + 1 ≤ fuel) :
+    Modularity.leidenLoop res tolOpt tolAgg nAgg fuel count lv labels memb incs rands ≠ none :=
+  Terminate.leidenLoop_terminates res tolOpt tolAgg nAgg fuel count lv labels memb incs rands hlv hf
+
+/-- non-vacuity: the pair level, tolerances 0 -/
+example : (Modularity.leidenLoop 1 0 0 (-1) 3 0 pairLevel [0, 1] [0, 1] [] [[7, 3]]).map (·.labels) = some [0, 0] := by
+  decide +kernel
 
 /-- **push_worklist_terminates.**  The `while not worklist.empty()` loop of `push_pagerank` (model
     `SkNet.Rank.pushLoop`, exact arithmetic) terminates: a vertex re-enters the work-list only when its residual
@@ -404,25 +403,37 @@ example :
 
 /-! ## 7. the refinement of Leiden -/
 
-/-- **refine_core_terminates** (over ℚ; the float32 kernel cycled — defect F21 — and is now bounded by its pass cap).
-    The `while increase` loop of `optimize_refine_core` (model `SkNet.Modularity.refineCore`, exact arithmetic)
-    terminates for **every** sequence of values of `rand()`:
+/-- **refine_core_terminates** (over ℚ, the loop *without* its pass cap).  The compiled `optimize_refine_core`
+    always returns because of its cap (`while increase and n_pass <= n`, /repo 68bb875c — the float32 kernel cycled
+    without it, defect F21); the model of the code, `SkNet.Modularity.refineCore` / `refineCapped`, is a total function
+    for that reason and needs no theorem.  What is proved here is that in exact arithmetic the cap is not what ends the
+    loop within `K^n + 1` passes: the `while increase` loop without the cap (`SkNet.Modularity.refineLoop`) terminates
+    for **every** sequence of values of `rand()`:
     a node only moves to a refined cluster whose `delta_local` is strictly positive; the refined partition refines
     the clusters, so the neighbour loop restricted to the node's own cluster sees the whole link towards each
     candidate and `delta_local` is exactly the change of `Q` of the refined partition; a pass that sets `increase`
-    strictly raises `Q`, no refined label vector is met twice: `K^n + 1` passes suffice. -/
+    strictly raises `Q`, no refined label vector is met twice: `K^n + 1` passes suffice.  (Exponential bound: this is
+    termination, not a time bound.) -/
 theorem refine_core_terminates (g : Modularity.Graph Rat) (hg : Modularity.GraphOK g) (res : Rat) (K : Nat)
     (labels : List Nat) (st : Modularity.RSt Rat) (hinv : Terminate.RInv g K labels st) (rands : List Nat)
-    (fuel : Nat) (hf : K ^ g.n + 1 ≤ fuel) : Modularity.refineCore g res labels fuel st rands ≠ none :=
+    (fuel : Nat) (hf : K ^ g.n + 1 ≤ fuel) : Modularity.refineLoop g res labels fuel st rands ≠ none :=
   Terminate.refineCore_terminates g hg res K labels st hinv rands fuel hf
 
-/-- `Leiden._optimize_refine` (singletons, node weights, zero scratch) terminates on every well-formed level -/
+/-- from the start state of `Leiden._optimize_refine` (singletons, node weights, zero scratch), on every well-formed
+    level -/
 theorem leiden_refine_terminates (lv : Modularity.Level) (hlv : Modularity.LevelOK lv) (res : Rat)
     (labels : List Nat) (rands : List Nat) (fuel : Nat) (hf : lv.n ^ lv.n + 1 ≤ fuel) :
-    Modularity.leidenRefine lv res fuel labels rands ≠ none :=
+    Modularity.refineLoop lv.graph res labels fuel
+      { refined := Modularity.arange lv.n, outCl := lv.outW, inCl := lv.inW, cw := tab lv.n fun _ => 0 } rands
+      ≠ none :=
   Terminate.leidenRefine_terminates lv hlv res labels rands fuel hf
 
-/-- non-vacuity: the pair level, both nodes in one cluster: the refinement joins them whatever `rand()` says -/
-example : (Modularity.leidenRefine pairLevel 1 5 [0, 0] [7, 3]).map (·.1) = some [1, 1] := by decide +kernel
+/-- non-vacuity: the pair level, both nodes in one cluster: the refinement joins them whatever `rand()` says, and the
+    capped kernel returns the same labels -/
+example : (Modularity.refineLoop pairLevel.graph 1 [0, 0] 5
+      { refined := Modularity.arange 2, outCl := pairLevel.outW, inCl := pairLevel.inW, cw := tab 2 fun _ => 0 }
+      [7, 3]).map (·.1.refined) = some [1, 1] ∧
+    (Modularity.leidenRefine pairLevel 1 0 [0, 0] [7, 3]).map (·.1) = some [1, 1] := by
+  refine ⟨by decide +kernel, by decide +kernel⟩
 
 end SkNet.C17
